@@ -526,6 +526,12 @@ def check_models(ck, cases, scan_cases, prefix="c03"):
                     ctx = [coq_ev(x)[:160] for x in c["tr"][max(0, idx - 6):idx + 1]]
                     ck.obligation(f"correspondence:trace-accepted-by-fetcher-model:{name}", False,
                                   f"model rejects event #{idx}; context (last = rejected): {ctx}")
+                    # the rejected history is the concrete failing input: the scenario replays it on the real code
+                    ck.violation(f"the real consumer did something the consumer model (whose guards are the property's "
+                                 f"clauses) does not allow: partition {c['p']} of scenario {c['sc']['id']}, event #{idx} "
+                                 f"{ctx[-1] if ctx else ''} after {ctx[:-1]}",
+                                 {"scenario": c["sc"], "partition": c["p"], "rejected_event_index": idx, "context": ctx},
+                                 signature=f"trace-rejected:{(ctx[-1] if ctx else '').split(' ')[0]}")
             else:
                 (mpos, mpaused, msegs) = v[1]
                 mruns = [[s[0], list(s[2])] for s in msegs]
